@@ -295,7 +295,19 @@ func (e *Engine) runPath(s *Solver, fn *ssa.Function, prefix []int, wantWitness 
 	w.spawn(FuncV{fn: fn}, nil, "harness", nil)
 	w.run()
 	if wantWitness != nil && !w.infeas && !w.truncated && len(w.viol) == 0 && wantWitness(w) {
-		_, w.witnessModel = s.model("", w.inputs)
+		func() {
+			defer func() {
+				if r := recover(); r != nil {
+					if _, ok := r.(engineError); !ok {
+						panic(r)
+					}
+					s.unknown-- // a witness model that cannot be produced is not an undischarged obligation
+				}
+			}()
+			unk := s.unknown
+			_, w.witnessModel = s.model("", w.inputs)
+			s.unknown = unk
+		}()
 	}
 	return w, ""
 }
@@ -323,7 +335,7 @@ func (e *Engine) explore(fn *ssa.Function) *Result {
 		go func() {
 			defer wg.Done()
 			s := newSolver(e.solverKind, e.timeoutMs)
-			defer func() {
+			retire := func() {
 				mu.Lock()
 				res.QSat += s.sat
 				res.QUnsat += s.unsat
@@ -332,7 +344,8 @@ func (e *Engine) explore(fn *ssa.Function) *Result {
 				res.SolverS += s.dur.Seconds()
 				mu.Unlock()
 				s.close()
-			}()
+			}
+			defer func() { retire() }()
 			for {
 				mu.Lock()
 				for len(work) == 0 && inflight > 0 && !stop {
@@ -359,6 +372,10 @@ func (e *Engine) explore(fn *ssa.Function) *Result {
 					return false
 				})
 
+				if s.dead {
+					retire()
+					s = newSolver(e.solverKind, e.timeoutMs)
+				}
 				mu.Lock()
 				inflight--
 				if w != nil {
